@@ -202,9 +202,25 @@ fn mk_request(ask: &Ask, id: u16, edns: Option<u16>, dnssec_ok: bool) -> Vec<u8>
         ad.push((extra, domain::base::iana::Class::IN, domain::base::Ttl::from_secs(0), domain::rdata::A::new(std::net::Ipv4Addr::new(192, 0, 2, 9)))).unwrap();
     }
     if let Some(size) = edns {
+        // A DNS cookie now and then: a client cookie alone, or with a server
+        // cookie this server never issued (answered with BADCOOKIE over UDP).
+        let cookie = match sim::draw("req.cookie", 8) {
+            0 => Some(domain::base::opt::cookie::Cookie::new(domain::base::opt::cookie::ClientCookie::from_octets([ask.k as u8, 1, 2, 3, 4, 5, 6, 7]), None)),
+            1 => Some(domain::base::opt::cookie::Cookie::new(
+                domain::base::opt::cookie::ClientCookie::from_octets([ask.k as u8, 1, 2, 3, 4, 5, 6, 7]),
+                Some(domain::base::opt::cookie::ServerCookie::from_octets(&[9u8; 16])),
+            )),
+            _ => None,
+        };
+        if cookie.is_some() {
+            sim::stat("probe.request_with_dns_cookie");
+        }
         ad.opt(|o| {
             o.set_udp_payload_size(size);
             o.set_dnssec_ok(dnssec_ok);
+            if let Some(c) = cookie {
+                o.cookie(c)?;
+            }
             Ok(())
         })
         .unwrap();
